@@ -55,17 +55,44 @@ def run_history(case):
     m = Model()
     R, S = [], []
     originals = []  # (model that was deep-copied, its content and ids at that moment)
+    carried = None  # (model, its snapshot, its ids) as read after the previous op — nothing touched the model since
     for i, op in enumerate(ops):
         check = i >= start
-        before = O.snapshot(m) if check else None
-        ids_before = O.ids_of(m) if check else None
+        if check and carried is not None and carried[0] is m:
+            before, ids_before = carried[1], carried[2]
+        else:
+            before = O.snapshot(m) if check else None
+            ids_before = O.ids_of(m) if check else None
         ans = None
         out = "ok"
         if op[0] == "q":
             ans = O.run_query(m, op)
         elif op[0] == "fork":
-            originals.append((m, O.snapshot(m), O.ids_of(m)))
-            m = copy.deepcopy(m)
+            old = m
+            if len(op) > 1 and op[1] == "pickle":
+                import pickle
+
+                m = pickle.loads(pickle.dumps(old))  # noqa: S301
+            else:
+                m = copy.deepcopy(old)
+            # `==` between the copy and its original: True at once, and still True after a query has filled the
+            # cache of one of them only (the memoised cache is not part of a model's value)
+            eq_now = bool(m == old) and m is not old and (old._cache is None or m._cache is not old._cache)
+            probe = copy.deepcopy(old)  # a third model on which the cache state is flipped (old itself stays as it is)
+            try:
+                if probe._cache is None:
+                    probe.get_initial_conditions()
+                else:
+                    probe._cache = None
+            except Exception:  # noqa: BLE001
+                pass
+            eq_after = bool(m == probe) and bool(probe == m)
+            originals.append((old, O.snapshot(old), O.ids_of(old), eq_now, eq_after))
+        elif op[0] == "call":
+            try:
+                O.apply_call(m, op)
+            except Exception as e:  # noqa: BLE001
+                out = type(e).__name__
         else:
             try:
                 O.apply_mut(m, op)
@@ -75,16 +102,24 @@ def run_history(case):
              "effect": "as documented"}
         s = None
         if check:
-            after = O.snapshot(m)
+            try:
+                after = O.snapshot(m)
+            except Exception:  # noqa: BLE001
+                if any(o[0] == "call" for o in ops):
+                    break  # a probe call stored something that is not a model component: the history ends here
+                raise
+            carried = (m, after, r["ids"])
             if out != "ok":
                 r["changed"] = after != before or r["ids"] != ids_before
             s = {"keys": r["keys"], "changed": False, "ans": None, "effect": "as documented"}
-            if out == "ok" and op[0] not in ("q", "fork"):
+            if out == "ok" and op[0] not in ("q", "fork", "call"):
                 exp = c03spec.expected_content(before, op)
                 if exp is not None and exp != after:
                     r["effect"] = {"content differs in": [k for k in O.KEYS if exp[k] != after[k]]}
-            exp = c03spec.expected_outcome(before, op) if op[0] not in ("q", "fork") else "ok"
+            exp = (c03spec.expected_outcome(before, op) if op[0] not in ("q", "fork", "call")
+                   else None if op[0] == "call" else "ok")
             s["out"] = r["out"] if exp is None else exp
+            fresh = None
             try:
                 fresh = O.fresh_model(after)
                 s["ids"] = O.ids_of(fresh)
@@ -93,6 +128,22 @@ def run_history(case):
             except Exception as e:  # noqa: BLE001
                 s["ids"] = {"content cannot be rebuilt": type(e).__name__}
                 s["ans"] = {"content cannot be rebuilt": type(e).__name__} if op[0] == "q" else None
+            if op[0] == "q":
+                # the real freshly built model's answer, also under its own key: the Lean model's `freshAnswer` is
+                # compared with it (M["fresh"] vs R["fresh"], a correspondence check of the theorems' right-hand side)
+                r["fresh"] = s["ans"]
+                s["fresh"] = s["ans"]
+            if i == len(ops) - 1:
+                # the freshly built real model itself (ids, key order of the seven containers): the counterpart of the
+                # Lean model's `freshState`
+                try:
+                    r["rebuilt"] = {"ids": O.ids_of(fresh), "keys": O.keylists(fresh),
+                                    # every declared name: the keys of the seven containers and all surrogate outputs
+                                    "names": sorted([k for ks in O.keylists(fresh) for k in ks]
+                                                    + [o for su in fresh.get_raw_surrogates().values() for o in su.outputs])}
+                except Exception as e:  # noqa: BLE001
+                    r["rebuilt"] = {"content cannot be rebuilt": type(e).__name__}
+                s["rebuilt"] = r["rebuilt"]
             if r["changed"] and op[0] in O.PLURAL and _prefix_applied(before, op, after):
                 r["prefix"] = True
                 s["prefix"] = True
@@ -102,7 +153,13 @@ def run_history(case):
         # edits of a deep copy never reach the model it was copied from
         probe = ["q", "argsro", ["2", "3", "1"], "1"]
         bad = []
-        for j, (orig, snap, ids) in enumerate(originals):
+        for j, (orig, snap, ids, eq_now, eq_after) in enumerate(originals):
+            if not eq_now:
+                bad.append([j, "the copy is not equal to (or shares its cache with) the model it was copied from"])
+                continue
+            if not eq_after:
+                bad.append([j, "copy and original differ in == once only one of them has a cache"])
+                continue
             if O.snapshot(orig) != snap or O.ids_of(orig) != ids:
                 bad.append([j, "content or ids of the original changed"])
                 continue
@@ -133,27 +190,40 @@ def pool():
 def model_histories(cases):
     """M: per history, per op >= check_from {"out","ids","keys","ans"} from the Lean state machine
     (None for the build prefix)"""
-    res = driver.call_batch([{"op": "c03", "ops": c["ops"], "from": c.get("check_from", 0)} for c in cases])
+    res = driver.call_batch([{"op": "c03", "ops": [O.canon_op(o) for o in c["ops"]], "from": c.get("check_from", 0)}
+                             for c in cases])
     out = []
     for c, r in zip(cases, res):
         start = c.get("check_from", 0)
         obs = [None] * start
         for o in r:
-            ans = o.get("ans")
-            if ans is not None:
-                ans = canon_model_ans(ans)
-                q = c["ops"][len(obs)]
-                if "ok" in ans and q[1] == "stoich":
-                    from vlib import content as C
-
-                    ans = {"ok": C.canon_stoich({cp: dict(row) for cp, row in ans["ok"]})}
-                elif "ok" in ans and q[1] == "stoichvar":
-                    ans = {"ok": sorted(ans["ok"])}
-                elif "ok" in ans and q[1] == "names" and q[2] == "unused":
-                    ans = {"ok": sorted(ans["ok"])}
-            obs.append({"out": o["out"], "ids": sorted(o["ids"]), "keys": o["keys"], "ans": ans})
+            q = c["ops"][len(obs)]
+            ob = {"out": o["out"], "ids": sorted(o["ids"]), "keys": o["keys"], "ans": _canon_q(o.get("ans"), q)}
+            if q[0] == "q":
+                # what `freshAnswer` (the right-hand side of C03_fresh_equiv) says; compared with the real fresh model
+                ob["fresh"] = _canon_q(o.get("fresh"), q)
+            if "rebuilt" in o:
+                # the Lean model built from scratch by `rebuild` (C03_refines_fresh); compared with the real fresh model
+                ob["rebuilt"] = {"ids": sorted(o["rebuilt"]["ids"]), "keys": o["rebuilt"]["keys"],
+                                 "names": sorted(o["rebuilt"]["names"])}
+            obs.append(ob)
         out.append(obs)
     return out
+
+
+def _canon_q(ans, q):
+    if ans is None:
+        return None
+    ans = canon_model_ans(ans)
+    if "ok" in ans and q[1] == "stoich":
+        from vlib import content as C
+
+        ans = {"ok": C.canon_stoich({cp: dict(row) for cp, row in ans["ok"]})}
+    elif "ok" in ans and q[1] == "stoichvar":
+        ans = {"ok": sorted(ans["ok"])}
+    elif "ok" in ans and q[1] == "names" and q[2] == "unused":
+        ans = {"ok": sorted(ans["ok"])}
+    return ans
 
 
 def canon_model_ans(a):
@@ -267,6 +337,10 @@ def signature(case, i, kind):
     if op[0] == "q" and op[1] not in ("init", "pvals", "classes", "args", "argsro", "rhs", "fluxes", "call", "stoich",
                                       "stoichvar"):
         return f"{kind}@{op[1]}-after-{prev}"
+    if op[0] == "call":
+        return f"{kind}@call:{op[1]}"
+    if prev == "call":
+        prev = next("call:" + o[1] for o in reversed(case["ops"][:i]) if o[0] == "call")
     return f"{kind}@{op[0] if op[0] != 'q' else 'query-after-' + prev}"
 
 
@@ -366,9 +440,9 @@ class Judge:
         ctx.judge(sub, r, s, m, what=f"{sig}: real model vs freshly built model with the same content / name-space rules")
 
 
-def evaluate(ctx, cases, judge):
+def evaluate(ctx, cases, judge, use_model=True):
     Ms = [None] * len(cases)
-    if ctx.driver_ok:
+    if ctx.driver_ok and use_model:
         Ms = model_histories(cases)
     reps = pool().map(check_history, list(zip(cases, Ms)), chunksize=4)
     for c, rep in zip(cases, reps):
@@ -411,13 +485,15 @@ def run(ctx):
               for e in list(ctx.fixed.values()) + list(ctx.known.values())
               if e.get("witness", {}).get("ops") and e["witness"]["ops"][0] != "BASE"]
     evaluate(ctx, corpus, judge)
-    evaluate(ctx, list(G.arity_histories()) + list(G.extra_histories()), judge)
+    evaluate(ctx, list(G.arity_histories()) + list(G.extra_histories()) + list(G.copy_histories())
+             + list(G.empty_flux_histories()) + list(G.degenerate_histories()) + list(G.shadow_histories()),
+             judge)
     ctx.exhaustive = True
     thorough = ctx.tier == "thorough"
     cur = []
     for c in G.pairs(None if thorough else 2):
         cur.append(c)
-        if len(cur) == 400:
+        if len(cur) == 1600:  # few, large batches: every batch ends with a barrier (stragglers cost under load)
             evaluate(ctx, cur, judge)
             cur = []
     if cur:
@@ -425,6 +501,15 @@ def run(ctx):
     p2 = list(G.pairs2())
     for i in range(0, len(p2), 400):
         evaluate(ctx, p2[i:i + 400], judge)
+    # public methods nobody has described (a NEW method in the source: C03_table_surface / the translator have already
+    # broken the proof side): look for a failing input by calling them inside histories — the fresh-rebuild oracle
+    # needs no model of the method (edits without invalidation, ids out of step, half-applied rejections show)
+    unknown = O.unknown_public()
+    if unknown:
+        ctx.notes.append(f"public methods of Model unknown to the check: {unknown}; probed with {len(O.PROBE_ARGS)} "
+                         "argument lists each (real code vs freshly built model, no Lean model)")
+        ctx.extra_cov["unknown_public_methods"] = unknown
+        evaluate(ctx, list(G.probe_histories(unknown, O.PROBE_ARGS)), judge, use_model=False)
     # a broken proof / drifting model without a failing input so far: widen the search (thorough generator)
     widen = thorough or ((not ctx.proof_ok or bool(ctx.drift)) and not ctx.violations)
     if widen and not thorough:
@@ -455,12 +540,16 @@ def replay(ctx, rp):
         evaluate(ctx, list(G.arity_histories()), Judge(ctx))
         return
     R, S = run_history({"ops": ops, "check_from": 0})
-    M = model_histories([{"ops": ops}])[0] if ctx.driver_ok else None
+    probe = any(o[0] == "call" for o in ops)  # a call of a method the Lean model has no op for: R vs S only
+    M = model_histories([{"ops": ops}])[0] if ctx.driver_ok and not probe else None
     for i, op in enumerate(ops):
         print(f"--- op {i}: {json.dumps(op)}")
+        if i >= len(R):
+            print("  (history ended: the content could not be read back after a probe call)")
+            break
         print("  R:", json.dumps(R[i]))
         print("  S:", json.dumps(S[i]))
-        if M is not None:
+        if M is not None and i < len(M):
             print("  M:", json.dumps(M[i]))
     c = {"ops": ops, "check_from": 0}
     Judge(ctx).report(c, check_history((c, M)))
